@@ -69,8 +69,23 @@ def make_batch(seed, n_traits, name, exclude=()):
     traits = []
     for k in range(n_traits):
         trng = random.Random(rng.getrandbits(64))
-        t = gen.gen_trait(trng, f"Tr{k}", f"t{k}")
+        t = gen.gen_trait(trng, f"Tr{k}", f"t{k}", tindex=k)
         traits.append((f"m{k}", t))
+    # groups over the batch's traits
+    groups = []
+    n_groups = max(2, n_traits // 5)
+    for k in range(n_groups):
+        grng = random.Random(rng.getrandbits(64))
+        cand = [(m, t) for (m, t) in traits if m not in exclude]
+        if len(cand) < 3:
+            break
+        members = grng.sample(cand, grng.randint(2, min(4, len(cand))))
+        n_mand = grng.randint(0, min(2, len(members) - 1))
+        nopt = len(members) - n_mand
+        enabled = grng.getrandbits(nopt) | (1 << grng.randrange(nopt))
+        if grng.random() < 0.25:
+            enabled = (1 << nopt) - 1
+        groups.append((f"g{k}", emit.Group(f"Gp{k}", members, n_mand, enabled)))
     d = os.path.join(WORK, name)
     os.makedirs(os.path.join(d, "src"), exist_ok=True)
     write_if_changed(os.path.join(d, "Cargo.toml"), CARGO.format(name=name.replace("-", "_"), repo=REPO, root=ROOT))
@@ -85,6 +100,13 @@ def make_batch(seed, n_traits, name, exclude=()):
         write_if_changed(os.path.join(d, "src", f"{m}.rs"), emit.module_src(t))
         mods.append(f"mod {m};")
         runs.append(RUN.format(mod=m, tname=t.name))
+    for (gm, g) in groups:
+        if gm in exclude or any(m in exclude for (m, _) in g.members):
+            continue
+        write_if_changed(os.path.join(d, "src", f"{gm}.rs"), emit.group_src(g))
+        mods.append(f"mod {gm};")
+        runs.append(RUN.format(mod=gm, tname=g.name))
     write_if_changed(os.path.join(d, "src", "main.rs"), MAIN.format(mods="\n".join(mods), runs="".join(runs)))
     desc = {m: t.describe() for (m, t) in traits}
+    desc.update({gm: g.describe() for (gm, g) in groups})
     return d, traits, desc
